@@ -28,7 +28,7 @@ def units(tier, seed):
         if mode == "complete":
             us += split_units(desc, 99, "LS", {"mode": mode})
         else:
-            us += split_units(desc, b, "GLS", {"mode": mode})
+            us += split_units(desc, min(b, desc.get("max_bound", b)), "GLS", {"mode": mode})
     s = 1 + seed % 1000
     shapes = [("SEA", "DE", "CMAf"), ("DE", "SEA", "SHADE"), ("SEA", "CMAf"), ("LHS", "SEAX", "DE"), ("GA", "DEd", "LOC")]
     for eng in shapes:
